@@ -2,7 +2,7 @@
 from __future__ import annotations
 
 from vf import env, gen, judge
-from vf.lib import Mon, observe
+from vf.lib import Mon, observe, soft_attr
 from vf.props.c04 import rand_bic
 from vf.ref import data
 from vf.ref import iban as R
@@ -111,7 +111,7 @@ def run_iban(shard, mon, S):
                 osub = observe(sub_, text)
                 if osub.ok:
                     x = osub.value
-                    for name, y in (("from_bban", observe(S.IBAN.from_bban, x.country_code, x.bban)), ("reparse", observe(S.IBAN, x.compact)), ("same_class", observe(sub_, str(x)))):
+                    for name, y in (("from_bban", observe(S.IBAN.from_bban, x.country_code, x.bban)), ("reparse", observe(S.IBAN, soft_attr(x, "compact", str(x)))), ("same_class", observe(sub_, str(x)))):
                         if not y.ok or not (y.value == x) or not (x == y.value) or hash(y.value) != hash(x) or (y.value not in {x}):
                             mon.viol(f"subclass_instance_not_equal_to_reassembled:{name}", w, s, y.brief())
                 else:
@@ -158,8 +158,8 @@ def run_iban(shard, mon, S):
                 gi = observe(getattr, ib, comp)
                 if not gi.ok or gi.value != want:
                     mon.viol(f"component_changed_after_use_as_constructor_argument:{comp}", w, want, gi.brief())
-            if len(ib) != len(s) or ib.length != len(s) or ib.compact != s:
-                mon.viol("length_or_compact_wrong", w, len(s), [ib.length, ib.compact])
+            if len(ib) != len(s) or soft_attr(ib, "length", len(s)) != len(s) or soft_attr(ib, "compact", s) != s:
+                mon.viol("length_or_compact_wrong", w, len(s), [soft_attr(ib, "length", len(s)), soft_attr(ib, "compact", s)])
         # short purely alphabetic fields (currency codes and the like): every possible value, because accessors
         # that "interpret" a field do so for specific values
         cls_ = R.position_classes(spec["bban_spec"]) or []
